@@ -168,6 +168,78 @@ theorem reexports_total {v : Variant} {env : Env} {items : List Item}
     obtain ⟨xs, hxs⟩ := this
     exact ⟨xs ++ ys, by simp [reexports, hxs, hys]⟩
 
+/-! ### the ordered, `del`-aware pass -/
+
+theorem mem_foldl_live {f d : Item → List Str} {n : Str} (items : List Item) (acc : List Str) :
+    n ∈ items.foldl (fun acc it => acc.filter (fun m => !(d it).contains m) ++ f it) acc ↔
+      (n ∈ acc ∧ ∀ j ∈ items, n ∉ d j) ∨
+      ∃ pre it post, items = pre ++ it :: post ∧ n ∈ f it ∧ ∀ j ∈ post, n ∉ d j := by
+  induction items generalizing acc with
+  | nil => simp
+  | cons x rest ih =>
+    simp only [List.foldl_cons]
+    rw [ih]
+    simp only [List.mem_append, List.mem_filter, Bool.not_eq_eq_eq_not, Bool.not_true,
+      List.contains_eq_mem, decide_eq_false_iff_not]
+    constructor
+    · rintro (⟨(⟨ha, hx⟩ | hfx), hrest⟩ | ⟨pre, it, post, rfl, hf, hp⟩)
+      · left
+        refine ⟨ha, ?_⟩
+        intro j hj
+        rcases List.mem_cons.mp hj with rfl | h
+        · exact hx
+        · exact hrest j h
+      · right; exact ⟨[], x, rest, rfl, hfx, hrest⟩
+      · right; exact ⟨x :: pre, it, post, rfl, hf, hp⟩
+    · rintro (⟨ha, hall⟩ | ⟨pre, it, post, heq, hf, hp⟩)
+      · left
+        exact ⟨Or.inl ⟨ha, hall x List.mem_cons_self⟩, fun j hj => hall j (List.mem_cons_of_mem _ hj)⟩
+      · cases pre with
+        | nil =>
+          simp only [List.nil_append, List.cons.injEq] at heq
+          obtain ⟨rfl, rfl⟩ := heq
+          left; exact ⟨Or.inr hf, hp⟩
+        | cons y pre' =>
+          simp only [List.cons_append, List.cons.injEq] at heq
+          obtain ⟨rfl, rfl⟩ := heq
+          right; exact ⟨pre', it, post, rfl, hf, hp⟩
+
+/-- **Characterisation of the ordered pass**: a name is live iff some statement adds it and no
+    later statement removes it. -/
+theorem mem_live_iff {f d : Item → List Str} {n : Str} {items : List Item} :
+    n ∈ live f d items ↔
+      ∃ pre it post, items = pre ++ it :: post ∧ n ∈ f it ∧ ∀ j ∈ post, n ∉ d j := by
+  unfold live
+  rw [mem_foldl_live]
+  simp
+
+theorem live_sub_flatMap {f d : Item → List Str} {n : Str} {items : List Item}
+    (h : n ∈ live f d items) : ∃ it ∈ items, n ∈ f it := by
+  obtain ⟨pre, it, post, rfl, hf, _⟩ := mem_live_iff.mp h
+  exact ⟨it, by simp, hf⟩
+
+/-- without removals the pass is a plain concatenation -/
+theorem mem_live_of_no_del {f d : Item → List Str} {n : Str} {items : List Item} {it : Item}
+    (hit : it ∈ items) (hf : n ∈ f it) (hd : ∀ j ∈ items, n ∉ d j) : n ∈ live f d items := by
+  obtain ⟨pre, post, rfl⟩ := List.append_of_mem hit
+  exact mem_live_iff.mpr ⟨pre, it, post, rfl, hf, fun j hj => hd j (by simp [hj])⟩
+
+theorem delSeen_sub_delAll (v : Variant) (it : Item) : ∀ n ∈ delSeen v it, n ∈ delAll it := by
+  intro n hn
+  cases it with
+  | del ns nested =>
+    simp only [delSeen] at hn
+    split at hn
+    · simp [delAll, hn]
+    · simp at hn
+  | _ => simp [delSeen] at hn
+
+theorem delAll_sub_delSeen {v : Variant} {items : List Item} (h : delsSeen v items = true)
+    {it : Item} (hit : it ∈ items) : ∀ n ∈ delAll it, n ∈ delSeen v it := by
+  intro n hn
+  simp only [delsSeen, List.all_eq_true] at h
+  simpa using h it hit n hn
+
 /-! ### members / bound -/
 
 theorem targetMembers_sub_binds (v : Variant) (t : Target) :
@@ -175,12 +247,12 @@ theorem targetMembers_sub_binds (v : Variant) (t : Target) :
   intro n hn
   cases t with
   | name m => simpa [targetMembers, targetBinds] using hn
-  | pattern b =>
+  | pattern b l =>
     simp only [targetMembers] at hn
     split at hn
     · simpa [targetBinds] using hn
     · simp at hn
-  | other => simp [targetMembers] at hn
+  | other l => simp [targetMembers] at hn
 
 theorem memberFromNode_sub_defBinds (v : Variant) (it : Item) :
     ∀ n ∈ memberFromNode v it, n ∈ defBinds it := by
@@ -209,6 +281,7 @@ theorem memberFromNode_sub_defBinds (v : Variant) (it : Item) :
     · simp at hn
   | importFrom l m a => simp [memberFromNode] at hn
   | import_ a => simp [memberFromNode] at hn
+  | del a b => simp [memberFromNode] at hn
   | other => simp [memberFromNode] at hn
 
 theorem defBinds_sub_itemBinds (it : Item) : ∀ n ∈ defBinds it, n ∈ itemBinds it := by
@@ -218,17 +291,29 @@ theorem defBinds_sub_itemBinds (it : Item) : ∀ n ∈ defBinds it, n ∈ itemBi
 theorem members_sub_defNames (v : Variant) (items : List Item) :
     ∀ n ∈ members v items, n ∈ defNames items := by
   intro n hn
-  simp only [members, List.mem_flatMap] at hn
-  obtain ⟨it, hit, hn⟩ := hn
+  obtain ⟨it, hit, hn⟩ := live_sub_flatMap hn
   simp only [defNames, List.mem_flatMap]
   exact ⟨it, hit, memberFromNode_sub_defBinds v it n hn⟩
 
-theorem defNames_sub_bound (items : List Item) : ∀ n ∈ defNames items, n ∈ bound items := by
+theorem liveDefs_sub_defNames (items : List Item) : ∀ n ∈ liveDefs items, n ∈ defNames items := by
   intro n hn
-  simp only [defNames, List.mem_flatMap] at hn
-  obtain ⟨it, hit, hn⟩ := hn
-  simp only [bound, List.mem_flatMap]
-  exact ⟨it, hit, defBinds_sub_itemBinds it n hn⟩
+  obtain ⟨it, hit, hn⟩ := live_sub_flatMap hn
+  simp only [defNames, List.mem_flatMap]
+  exact ⟨it, hit, hn⟩
+
+/-- When every `del` is one the code sees, the members are live definitions. -/
+theorem members_sub_liveDefs {v : Variant} {items : List Item} (hdel : delsSeen v items = true) :
+    ∀ n ∈ members v items, n ∈ liveDefs items := by
+  intro n hn
+  obtain ⟨pre, it, post, rfl, hf, hp⟩ := mem_live_iff.mp hn
+  refine mem_live_iff.mpr ⟨pre, it, post, rfl, memberFromNode_sub_defBinds v it n hf, ?_⟩
+  intro j hj hc
+  exact hp j hj (delAll_sub_delSeen hdel (by simp [hj]) n hc)
+
+theorem liveDefs_sub_bound (items : List Item) : ∀ n ∈ liveDefs items, n ∈ bound items := by
+  intro n hn
+  obtain ⟨pre, it, post, rfl, hf, hp⟩ := mem_live_iff.mp hn
+  exact mem_live_iff.mpr ⟨pre, it, post, rfl, defBinds_sub_itemBinds it n hf, hp⟩
 
 /-- With D8 fixed, or on a statement of none of the D8 forms, `_member_from_node` finds
     every name the statement binds as a def / class / assignment. -/
@@ -244,7 +329,7 @@ theorem defBinds_sub_memberFromNode (v : Variant) (it : Item)
     refine ⟨t, ht, ?_⟩
     cases t with
     | name m => simpa [targetMembers, targetBinds] using hn
-    | pattern b =>
+    | pattern b l =>
       simp only [targetBinds] at hn
       rcases h with h | h
       · simp [targetMembers, h, hn]
@@ -253,7 +338,7 @@ theorem defBinds_sub_memberFromNode (v : Variant) (it : Item)
         simp only [List.isEmpty_iff] at this
         subst this
         simp at hn
-    | other => simp [targetBinds] at hn
+    | other l => simp [targetBinds] at hn
   | annAssign t hv val =>
     simp only [defBinds, itemBinds] at hn
     split at hn
@@ -262,8 +347,8 @@ theorem defBinds_sub_memberFromNode (v : Variant) (it : Item)
       · simp only [memberFromNode, h, hhv, Bool.and_self, ↓reduceIte]
         cases t with
         | name m => simpa [targetMembers, targetBinds] using hn
-        | pattern b => simpa [targetMembers, targetBinds, h] using hn
-        | other => simp [targetBinds] at hn
+        | pattern b l => simpa [targetMembers, targetBinds, h] using hn
+        | other l => simp [targetBinds] at hn
       · simp only [noD8Form, hhv, Bool.not_true, Bool.false_or, List.isEmpty_iff] at h
         rw [h] at hn
         simp at hn
@@ -277,6 +362,7 @@ theorem defBinds_sub_memberFromNode (v : Variant) (it : Item)
     · simp [noD8Form] at h
   | importFrom l m a => simp [defBinds] at hn
   | import_ a => simp [defBinds] at hn
+  | del a b => simp [defBinds, itemBinds] at hn
   | other => simp [defBinds, itemBinds] at hn
 
 /-! ### the `__all__` scan -/
@@ -303,8 +389,8 @@ theorem allAssignVal_member {v : Variant} {it : Item} {val : Val} (h : allAssign
       refine ⟨t, ht, ?_⟩
       cases t with
       | name m => simp [isAllTarget] at htt; simp [targetMembers, htt]
-      | pattern b => simp [isAllTarget] at htt
-      | other => simp [isAllTarget] at htt
+      | pattern b l => simp [isAllTarget] at htt
+      | other l => simp [isAllTarget] at htt
     · simp at h
   | annAssign t hv val' =>
     simp only [allAssignVal] at h
@@ -315,8 +401,8 @@ theorem allAssignVal_member {v : Variant} {it : Item} {val : Val} (h : allAssign
       simp only [memberFromNode, h8, hhv, Bool.and_self, ↓reduceIte]
       cases t with
       | name m => simp [isAllTarget] at htt; simp [targetMembers, htt]
-      | pattern b => simp [isAllTarget] at htt
-      | other => simp [isAllTarget] at htt
+      | pattern b l => simp [isAllTarget] at htt
+      | other l => simp [isAllTarget] at htt
     · simp at h
   | _ => simp [allAssignVal] at h
 
@@ -376,6 +462,7 @@ inductive LitAll (v : Variant) : List Item → List Entry → Prop where
   | skip {items : List Item} {es : List Entry} {it : Item} :
       LitAll v items es → allAssignVal v it = none →
       (∀ t val, it = .augAssign t val → isAllTarget t = false) →
+      allName ∉ delSeen v it →
       LitAll v (items ++ [it]) es
 
 theorem fromMod_some_iff {env : Env} {lvl : Nat} {mod : Option ModName} {fm : ModName} :
@@ -450,29 +537,33 @@ theorem reexports_mem {v : Variant} {env : Env} {items : List Item} {re : List S
     · simp [reexportsOf, hf]
     · exact mem_aliasMembers.mpr ⟨a, ha, h1, h2, h3⟩
 
+theorem mem_members_snoc {v : Variant} {items : List Item} {it : Item} {n : Str}
+    (h : n ∈ members v items) (hd : n ∉ delSeen v it) : n ∈ members v (items ++ [it]) := by
+  obtain ⟨pre, it0, post, rfl, hf, hp⟩ := mem_live_iff.mp h
+  refine mem_live_iff.mpr ⟨pre, it0, post ++ [it], by simp, hf, ?_⟩
+  intro j hj
+  rcases List.mem_append.mp hj with h1 | h1
+  · exact hp j h1
+  · simp only [List.mem_singleton] at h1; subst h1; exact hd
+
 theorem litAll_scan {v : Variant} {items : List Item} {es : List Entry} (h : LitAll v items es) :
     allScan v items = (true, es) ∧ allName ∈ members v items := by
   induction h with
   | @assign pre it es hv =>
     constructor
     · rw [allScan_snoc]; simp [allStep, hv]
-    · simp only [members, List.flatMap_append, List.mem_append, List.flatMap_cons,
-        List.flatMap_nil, List.append_nil]
-      exact Or.inr (allAssignVal_member hv)
+    · exact mem_live_iff.mpr ⟨pre, it, [], rfl, allAssignVal_member hv, by simp⟩
   | @aug items es es' t _ ht ih =>
     constructor
     · rw [allScan_snoc, ih.1]; simp [allStep, allAssignVal, ht]
-    · simp only [members, List.flatMap_append, List.mem_append]
-      exact Or.inl ih.2
-  | @skip items es it _ hv hna ih =>
+    · exact mem_members_snoc ih.2 (by simp [delSeen])
+  | @skip items es it _ hv hna hnd ih =>
     constructor
     · rw [allScan_snoc, ih.1]
       simp only [allStep, hv]
       cases it with
       | augAssign t val => simp [hna t val rfl]
       | _ => rfl
-    · simp only [members, List.flatMap_append, List.mem_append]
-      exact Or.inl ih.2
-
+    · exact mem_members_snoc ih.2 hnd
 
 end Pfb.C19
